@@ -16,7 +16,7 @@ export VERIF_DIR=${SEED_RUN:-/verif/scratch/mine-run} VERIF_FIXTURES=/verif
 rm -rf $VERIF_DIR; mkdir -p $VERIF_DIR; cp /verif/known_findings.json $VERIF_DIR/
 RES=""
 for id in $CHECKS; do
-  out=$($SW/target/release/bpsim $id quick 2>&1); rc=$?
+  out=$(timeout 1500 $SW/target/release/bpsim $id quick 2>&1); rc=$?
   if [ $rc -eq 1 ]; then RES="$RES $id=CAUGHT"; echo "$id CAUGHT: $(echo "$out" | grep -m1 'what:')"; elif [ $rc -eq 0 ]; then RES="$RES $id=miss"; else RES="$RES $id=ERR$rc"; echo "$id ERR: $(echo "$out" | tail -2)"; fi
 done
 cd $W && git checkout -- .
